@@ -79,7 +79,7 @@ def gen_world(rng, n):
         if es.legal_link(tasks, s, p) and p not in tasks[s - 1]["pre"]:
             tasks[s - 1]["pre"].append(p)
             W["pre"][s - 1].append(p)
-    cols = ["note", "prio", "Tag x"]
+    cols = ["note", "prio", "Tag x", "print_color", "gantt_section"]     # incl. custom attributes the library itself reads
     for i in range(n):
         def tx():
             r = rng.random()
@@ -91,7 +91,7 @@ def gen_world(rng, n):
         W["f"].append({"name": tx(), "resource": tx(), "start": dt(), "end": dt(), "est": nm(), "spent": nm(),
                        "ms": rng.random() < 0.2, "minstart": dt() if rng.random() < 0.4 else NONE})
         cu = []
-        for c in rng.sample(cols, rng.randint(0, 3)):
+        for c in rng.sample(cols, rng.randint(0, 4)):
             r = rng.random()
             v = NONE if r < 0.15 else (ncell(rng.choice([5, 0])) if r < 0.3 else text(rng.randrange(len(POOL))))
             cu.append({"col": c, "v": v})
@@ -260,6 +260,36 @@ def hand_write(W, path, bom):
         fh.write(buf.getvalue())
 
 
+def edit_and_roundtrip(pj, w, path):
+    """move the last task below the first root (or to root level), replace one predecessor list; then
+    write and read; returns (projection of the edited WBS, projection of what was read back)"""
+    ts = list(w.tasks)
+    if len(ts) >= 2:
+        last, first = ts[-1], ts[0]
+        try:
+            if last.parent is not None:
+                last.parent = None
+            elif last is not first and first not in last.all_children:
+                last.predecessors = []
+                last.successors = []
+                last.parent = first
+        except RuntimeError:
+            pass
+        try:
+            ts[1].predecessors = [ts[0]] if ts[0] not in ts[1].all_parents and ts[0] not in ts[1].all_children \
+                and ts[1] not in ts[0].all_predecessors else []
+        except RuntimeError:
+            pass
+    edited = project(w)
+    pj.write_csv(w, path)
+    back = project(pj.read_csv(path))
+    try:
+        os.unlink(path)
+    except OSError:
+        pass
+    return edited, back
+
+
 EMPTY_W = {"ids": [], "par": [], "kids": [], "roots": [], "pre": [], "f": [], "custom": []}
 
 
@@ -267,7 +297,8 @@ def execute(ev, tmp):
     pj = common.pjplan()
     W = ev["W0"]
     ev["W"] = as_text_world(W)
-    ev.update({"F": {"header": [], "rows": []}, "W2": EMPTY_W, "Wh": EMPTY_W, "Wb": EMPTY_W, "fix": False, "out": "ok"})
+    ev.update({"F": {"header": [], "rows": []}, "W2": EMPTY_W, "Wh": EMPTY_W, "Wb": EMPTY_W, "fix": False, "out": "ok",
+               "We": EMPTY_W, "W3": EMPTY_W})
     p1, p2, p3, ph, pb = [os.path.join(tmp, "%d_%s.csv" % (ev["id"], x)) for x in ("1", "2", "3", "h", "b")]
     try:
         w = build(W)
@@ -279,6 +310,8 @@ def execute(ev, tmp):
         w3 = pj.read_csv(p2)
         pj.write_csv(w3, p3)
         ev["fix"] = open(p2, "rb").read() == open(p3, "rb").read()
+        # history: the re-read WBS is EDITED (hierarchy and dependencies), written and read again
+        ev["We"], ev["W3"] = edit_and_roundtrip(pj, w3, os.path.join(tmp, "%d_e.csv" % ev["id"]))
         hand_write(W, ph, False)
         ev["Wh"] = project(pj.read_csv(ph))
         hand_write(W, pb, True)
